@@ -436,6 +436,7 @@ func c07Stream(c *fw.Ctx, cs *c07Case, base []byte) {
 		}
 	}
 	conn := sched.NewConn(data)
+	conn.EmptyEvery = []int{0, 0, 3, 5}[len(data)%4]
 	for k := 997; k < len(data); k += 997 {
 		conn.Cuts = append(conn.Cuts, k)
 	}
